@@ -66,6 +66,7 @@ def run(rep, tier):
         unroll(rep, meta, sfx)
         pipeline(rep, meta, sfx)
         wsguard(rep, meta, sfx)
+        accum(rep, meta, sfx)
 
 
 def generic_traversals(meta, roots, enums):
@@ -611,3 +612,52 @@ def wsguard(rep, meta, sfx):
                             "the guarded rewrite is enabled for rule types %s, which skip implicit "
                             "WHITESPACE/COMMENT between sequence elements; the pass's rewrites are only "
                             "meaning-preserving for %s" % (sorted(ts - NO_IMPLICIT_WS), sorted(NO_IMPLICIT_WS)))
+
+
+# ------------------------------------------------------------------ ACCUM
+
+def accum(rep, meta, sfx):
+    r = rep.rule("C05.ACCUM" + sfx, 1,
+                 "a recursive rewrite helper that threads an accumulator by value (the literals collected so far) uses "
+                 "it on every path that produces a result: an accumulator dropped on one path loses what was collected")
+    n = 0
+    for fn in meta.bodies:
+        if not fn["path"].startswith("pest_meta::optimizer::") or fn.get("exp"):
+            continue
+        if not any(callee(x) == fn["path"] for x in walk(fn["body"])):
+            continue
+        accs = [p for p in fn["params"] if p.get("k") == "PBind" and p.get("ty", "").startswith("alloc::vec::Vec<")]
+        if not accs:
+            continue
+        for acc in accs:
+            n += 1
+            key = "%s:%s" % (fn["path"].replace("pest_meta::optimizer::", ""), acc["name"])
+            r.instance(key, where(fn["body"]))
+            pe = PathEnum(fn, inline_closures=False)
+            for (ev, out) in exits(pe.paths()):
+                v = hirq.path_value(ev)
+                vp = peel(v) if v is not None else None
+                if vp is not None and kind(vp) == "Path" and vp.get("path") == "core::option::Option::None":
+                    continue
+                used = False
+                for e in ev:
+                    if e.kind in ("call", "struct", "closure", "tail", "ret", "let"):
+                        # a by-value hand-over: the accumulator is a direct argument of a call or constructor
+                        # (`choices.push(..)` / `.append(..)` only borrow it)
+                        for x in walk(e.node):
+                            if kind(x) in ("Call", "Struct", "Tup") and any(
+                                    kind(peel(a)) == "Path" and peel(a).get("res") == "local" and peel(a)["id"] == acc["id"]
+                                    for a in (x.get("args") or x.get("elems") or [f.get("expr") or f.get("e") for f in x.get("fields", [])])
+                                    if a is not None):
+                                used = True
+                                break
+                        if used:
+                            break
+                if not used:
+                    r.violation(key, where(v) if v is not None else where(fn["body"]),
+                                "a path of %s returns a result without handing on its accumulator `%s`: what earlier "
+                                "alternatives contributed is dropped (e.g. `(!('a' | 'b' | kw) ~ ANY)*` becomes a skip "
+                                "over kw's literals only)" % (fn["name"], acc["name"]))
+                    break
+    if n == 0:
+        r.note("no accumulator-threading recursive helper in the optimizer")
